@@ -184,7 +184,7 @@ def iterparse_character_subset(s: str, expand_ranges: bool = False) -> Iterator[
                 raise RegexError("bad character %r at position %d" % (s[k], k))
             escaped = on_range = False
             char = s[k]
-            if k >= length - 2 or s[k + 1] != '-':
+            if expand_ranges or k >= length - 2 or s[k + 1] != '-':
                 yield ord(char)
         elif s[k] == '\\':
             if escaped:
@@ -199,7 +199,7 @@ def iterparse_character_subset(s: str, expand_ranges: bool = False) -> Iterator[
                 yield ord('\\')
             on_range = False
             char = s[k]
-            if k >= length - 2 or s[k + 1] != '-':
+            if expand_ranges or k >= length - 2 or s[k + 1] != '-':
                 yield ord(char)
     if escaped:
         yield ord('\\')
